@@ -124,10 +124,14 @@ def candidates(src):
 def sh(cmd, cwd=None, env=None, timeout=900):
     e = dict(os.environ)
     e.update(env or {})
+    import signal
+    p = subprocess.Popen(cmd, shell=True, cwd=cwd, env=e, stdout=subprocess.PIPE, stderr=subprocess.STDOUT, start_new_session=True)
     try:
-        p = subprocess.run(cmd, shell=True, cwd=cwd, env=e, stdout=subprocess.PIPE, stderr=subprocess.STDOUT, timeout=timeout)
-        return p.returncode, p.stdout.decode("utf-8", "replace")
+        out, _ = p.communicate(timeout=timeout)
+        return p.returncode, out.decode("utf-8", "replace")
     except subprocess.TimeoutExpired:
+        os.killpg(p.pid, signal.SIGKILL)            # the whole process group: a mutant may loop forever inside pytest
+        p.communicate()
         return 124, "timeout"
 
 
